@@ -802,14 +802,31 @@ def case_input_file_names(ctx, names):
             except (OSError, ValueError):
                 ctx.count("file_name_not_creatable")
                 continue
+            # the library by name: what to_file(name) wrote, from_file(name) reads
+            K = cnf_classes()["CNF"] if isinstance(cnf_classes(), dict) else list(cnf_classes())[0]
+            st, F = ctx.call(K.from_file, p)
+            ctx.count("library_reads_by_name")
+            if st == "exc" or [list(c) for c in F] != [[1, -2], [2]] or F.number_of_variables() != 2:
+                ctx.violation("dimacs-reader:valid-file-not-read:%s" % (type(F).__name__ if st == "exc" else "misread"),
+                              "CNF.from_file(<file named %r>) with a valid DIMACS text: %r" % (name, F if st == "exc" else [list(c) for c in F]))
+            else:
+                p2 = os.path.join(scratch.dir, "again-" + name)
+                st2, _ = ctx.call(F.to_file, p2, fileformat="dimacs")
+                st3, F3 = ctx.call(K.from_file, p2) if st2 == "ok" else ("skip", None)
+                if st2 == "exc" or st3 == "exc" or [list(c) for c in F3] != [[1, -2], [2]] or F3.number_of_variables() != 2:
+                    ctx.violation("roundtrip:by-name:%s" % (type(_ if st2 == "exc" else F3).__name__ if "exc" in (st2, st3) else "misread"),
+                                  "to_file / from_file through a file named %r: %r" % ("again-" + name, _ if st2 == "exc" else F3))
+                ctx.judged(("by-name", repr(name)), sample={"file_name": name})
             for tool, argv in (("cnfgen", ["dimacs", p]), ("cnfshuffle", ["-p", "-v", "-c", "-i", p])):
                 with WriterTap() as tap:
                     o = run_main(tool, argv)
+                label = "%s %s <file named %r>" % (tool, " ".join(argv[:-1]), name)
                 if o.exc is not None or o.rc != 0 or len(tap.seen) != 1:
                     ctx.count("cli_write_not_completed")
+                    ctx.violation("dimacs-reader:valid-file-not-read:%s" % (type(o.exc).__name__ if o.exc is not None else "refused"),
+                                  "%s: the file holds a valid DIMACS text; outcome %r, stderr %r" % (label, o.exc if o.exc is not None else o.rc, o.err[-200:]))
                     continue
                 snap, hdr, vn = tap.seen[0]
-                label = "%s %s <file named %r>" % (tool, " ".join(argv[:-1]), name)
                 clean = judge_output(ctx, o.out, snap, hdr, vn, "cli-stdout", label)
                 judge_readback(ctx, read_stringio(ctx, cnf_classes()["CNF"], o.out), snap, clean, "stringio", label)
                 if snap.clauses != [[1, -2], [2]] or snap.n != 2:
@@ -1250,6 +1267,44 @@ def case_big_texts(ctx, rseed):
         shutil.rmtree(scratch_dir, ignore_errors=True)
 
 
+def case_view_formulas(ctx, rseed, count):
+    """Formulas of a user's own subclass of CNF that *presents* its clauses through the sequence protocol (vmon/ducks.py):
+    every export route must write what the object presents."""
+    from ..ducks import view_cnf
+    r = ctx.rng("c06view", rseed)
+    with Scratch() as scratch:
+        for k in range(count):
+            n = r.randint(1, 9)
+            shown = [[r.choice([1, -1]) * r.randint(1, n) for _ in range(r.randint(0, 4))] for _ in range(r.randint(0, 7))]
+            stored = shown + [[r.choice([1, -1]) * r.randint(1, n)] for _ in range(r.randint(1, 3))] if r.random() < 0.5 else None
+            F = view_cnf(n, shown, stored)
+            texts = []
+            st, t = ctx.call(F.to_dimacs)
+            texts.append(("to_dimacs()", st, t))
+            buf = io.StringIO()
+            st, t = ctx.call(F.to_file, buf, fileformat="dimacs", export_header=bool(k % 2), export_varnames=bool(k % 3 == 0))
+            texts.append(("to_file(StringIO)", st, buf.getvalue() if st == "ok" else t))
+            path = os.path.join(scratch.dir, "view%d.cnf" % k)
+            st, t = ctx.call(F.to_file, path)
+            texts.append(("to_file(path)", st, open(path).read() if st == "ok" else t))
+            for how, st, text in texts:
+                ctx.count("view_formula_exports")
+                label = "%s of a CNF subclass presenting %d clauses over %d variables (its table holds %d)" % (how, len(shown), n, len(F._clauses))
+                if st == "exc":
+                    ctx.violation("dimacs-writer:user-class:raises:%s" % type(text).__name__, "%s raised %r" % (label, text))
+                    continue
+                try:
+                    gn, gc = ref.read(text)
+                except Exception as e:      # noqa: BLE001 - ref.Rejected
+                    ctx.violation("dimacs-writer:user-class:output-not-readable", "%s: %r" % (label, e))
+                    continue
+                if gn != n or [list(c) for c in gc] != shown:
+                    ctx.violation("dimacs-writer:user-class:text-denotes-another-formula",
+                                  "%s: the text says 'p cnf %d %d' and holds %r..., the object presents %r..." % (label, gn, len(gc), gc[:3], shown[:3]))
+            ctx.judged(("view-formula", n, tuple(map(tuple, shown)), stored is None), nontrivial=len(shown) > 0,
+                       sample={"variables": n, "presented": shown[:4], "stored": len(F._clauses)})
+
+
 def case_export_histories(ctx, rseed, count):
     """One formula object exported several times with edits in between: every export must show the current state."""
     r = ctx.rng("c06hist", rseed)
@@ -1331,6 +1386,8 @@ def _workload(tier, seed):
         yield "big_texts", {"rseed": seed * 1000 + b}
     for b in range(4 if q else 60):
         yield "export_histories", {"rseed": seed * 1000 + b, "count": 60}
+    for b in range(2 if q else 30):
+        yield "view_formulas", {"rseed": seed * 1000 + b, "count": 40}
     # writer / round trip
     for mode, batches in (("plain", 4 if q else 60), ("unusual", 12 if q else 240), ("breaks", 4 if q else 40)):
         for b in range(batches):
@@ -1338,7 +1395,8 @@ def _workload(tier, seed):
     yield "minimal_witnesses", {}
     yield "kthlist_names", {"names": ["a graph", "", None, "pyramid of height 2 ", "x\ty", "\u00e9", "p cnf 1 1", "c"]}
     yield "input_file_names", {"names": ["plain.cnf", "with space.cnf", "new\nline.cnf", "\u00e9.cnf", "c.cnf",
-                                         "cr\rhere.cnf", "p cnf 1 1", "%.cnf"]}
+                                         "cr\rhere.cnf", "p cnf 1 1", "%.cnf", "packed.cnf.gz", "packed.cnf.bz2", "packed.cnf.xz", "PACKED.CNF.GZ",
+                                         "old.lzma", "f.zip", "f.tar", "f.cnf~", "noext", ".cnf", "f.opb", "f.tex", "f.latex", "f.dimacs", "{x}.cnf"]}
     for i, fam in enumerate(FAMILIES):
         yield "family", {"family": fam, "chain": "", "seed": seed + 1}
         for j in range(1 if q else 4):
